@@ -448,6 +448,25 @@ def rule_r1b(facts, rep, rid="C01-R1b"):
             for v in vs:
                 if v != "_":
                     accepts[fb.last_seg(v)] = not _diverges(arm["body"]) and A.has_effect(arm["body"])
+    # the same table when append_block is not one `match self`: a block kind is accepted if it is named by a pattern (match arm or `if let`,
+    # also inside an inlined selector helper such as `list_items_mut()`) whose branch neither diverges nor answers `None`
+    def _is_none(e_):
+        while e_ is not None and e_.get("k") == "block" and not e_.get("stmts") and e_.get("e") is not None:
+            e_ = e_["e"]
+        return e_ is not None and e_.get("k") == "path" and fb.last_seg(fb.norm(e_.get("def") or "")) == "None"
+    for x in fb.walk(apb.body):
+        branches = []
+        if x.get("k") == "match":
+            branches = [(a_["pat"], a_["body"]) for a_ in x.get("arms", [])]
+        elif x.get("k") == "if" and x["c"].get("k") == "letx":
+            branches = [(x["c"]["pat"], x["t"])]
+        for pat, body in branches:
+            for d_ in _pat_defs(pat):
+                dn = fb.norm(d_)
+                if dn.startswith(DB + "::"):
+                    v_ = fb.last_seg(dn)
+                    acc = not _diverges(body) and not _is_none(body)
+                    accepts[v_] = accepts.get(v_, False) or acc
     if not cont or not accepts:
         rep.anchor_missing(rid, "match on DocumentBlock in is_container / append_block")
         return
